@@ -488,6 +488,29 @@ def real_arms(ctx):
             ran[e['id']] += 1
             if e['hash'] != lone[e['id']]['hash']:
                 mism.append(('seq', byid[e['id']], 'sequential run (position %d of its process) differs from the lone result' % e['pos'], dict(kind='seq', spec=byid[e['id']], pos=e['pos'])))
+    # ---- 1b. EVERY job kind at least twice in one process, without the race detector (cheap): state that a decoder keeps in package
+    #          variables shows in the second decode of its format in a process, whichever job kind that is
+    P2 = 8
+    chunks2 = [[] for _ in range(P2)]
+    for i, f in enumerate(fl):
+        chunks2[i % P2] += byfile[f]
+    jobs2 = []
+    for p in range(P2):
+        cp = os.path.join(ctx.build, 'twice_%d.ndjson' % p)
+        vlib.write_ndjson(cp, chunks2[p])
+        op = os.path.join(ctx.build, 'twice_%d_out.ndjson' % p)
+        jobs2.append(lambda cp=cp, op=op, p=p: (ctx.run([binp, 'solo', cp, op, str(ctx.seed * 10 + p + 1), '2'], timeout=1500), op))
+    ntwice = 0
+    for r, op in run_par(jobs2, 8):
+        if r is None or r.returncode != 0:
+            ctx.inconc('twice-in-one-process pass did not finish (rc=%s): %s' % (getattr(r, 'returncode', None), (getattr(r, 'stderr', '') or '')[-300:]))
+            continue
+        for e in vlib.read_ndjson(op):
+            ntwice += 1
+            if e['hash'] != lone[e['id']]['hash']:
+                mism.append(('seq', byid[e['id']], 'run at position %d of a process that runs every job kind of its files twice (no race detector) differs from the lone result' % e['pos'],
+                             dict(kind='seq', spec=byid[e['id']], pos=e['pos'])))
+    ctx.cov['twice_in_one_process'] = dict(jobs=ntwice, processes=P2)
     vlib.log('sequential arm done at %.0fs' % (time.time() - ctx.t0))
     ctx.cov['sequential'] = dict(jobs=nseqjobs, processes=len(jobs), one_job_processes=nlone, several_inputs_on_one_interp=nmulti)
 
